@@ -16,7 +16,7 @@ def case_strategy(draw):
     prog["flag_repr"] = draw(st.sampled_from(["arr", "py"]))
     prog["idx_repr"] = draw(st.sampled_from(["arr", "py"]))
     prog["mode"] = draw(st.sampled_from(["partial", "partial", "partial", "empty", "full"]))
-    prog["picks"] = draw(gfi_hist.st_picks(4))
+    prog["picks"] = draw(st.lists(st.tuples(st.integers(0, 50), st.integers(0, 99).map(lambda i: i / 100.0)).map(list), min_size=1, max_size=4))
     prog["extra"] = draw(gfi_hist.st_picks(2))  # constraints on addresses the execution may not visit
     prog["style"] = draw(st.sampled_from(["or", "arr"]))
     return prog
